@@ -847,7 +847,7 @@ def glide_in_range(script):
 
 def rho(a1):
     p = -a1
-    return 4 * 2.0 ** -24 / max(1 - p, 2.0 ** -24)
+    return 16 * 2.0 ** -24 / max(1 - p, 2.0 ** -24)
 
 
 def mon_C13(script, outs):
